@@ -11,6 +11,7 @@ import (
 	"path/filepath"
 	"sort"
 	"strconv"
+	"strings"
 	"testing"
 	"testing/cryptotest"
 	"time"
@@ -309,8 +310,14 @@ func Main(t *testing.T, h Harness) {
 				hashes[hh] = struct{}{}
 			}
 		}
-		if len(wo.Samples) < 2 && h.Describe != nil && nontrivial {
-			wo.Samples = append(wo.Samples, fmt.Sprintf("run %d (seed %d): %s", i, rs, h.Describe(&res)))
+		if len(wo.Samples) < 1 && nontrivial && res.Violation == nil {
+			// a sample case for the evidence: the same run again with the trace recorded
+			rr := h.runOnce(t, simrt.NewTape(res.Tape), tier, true)
+			lines := rr.Trace
+			if len(lines) > 40 {
+				lines = append(append([]string(nil), lines[:30]...), fmt.Sprintf("... %d more events", len(rr.Trace)-30))
+			}
+			wo.Samples = append(wo.Samples, fmt.Sprintf("run %d (seed %d, %d decisions, %d scheduler steps): %s", i, rs, len(res.Tape), res.Steps, strings.Join(lines, " | ")))
 		}
 		if res.Violation != nil {
 			sig := h.sig(res.Violation)
